@@ -99,6 +99,22 @@ ROWS += [
 ]
 
 
+ROWS += [
+    ("C15", "known", None, "K5",
+     "H2s-sparse-storage-reordered/solve_system/" + subj,
+     "solve(*mpc(A, b, S=..., M=...)) with the default direct solver: the "
+     "matrix returned by mpc (skfem.utils.bmat -> scipy.sparse.bmat) is CSR "
+     "with unsorted column indices; scipy.sparse.linalg.spsolve calls "
+     "A.sum_duplicates() on the caller's object, which reorders A.indices and "
+     "A.data of the operand in place. The matrix is the same entry for entry "
+     "(only the storage order changes), but the operand's arrays are not "
+     "bit-for-bit unchanged. Every other matrix scikit-fem hands out "
+     "(assemble, condense, enforce, penalize) is already in canonical form "
+     "and is left alone")
+    for subj in ("-", "solver")
+]
+
+
 def main():
     log = subprocess.check_output(
         ["git", "-C", "/repo", "log", "--format=%H %s"], text=True).splitlines()
